@@ -434,8 +434,8 @@ func (pc *PConn) pump(dir int, src, dst net.Conn) {
 				if rule.Pos == "after" && fin {
 					pc.logMsg(dir, msgOp, msg, wfFrag) // logged before the receiver can see it
 				}
+				pc.p.rec.Emit("WireFault", "conn", pc.ID, "fault", rule.Pos+"/"+rule.Style, "dir", dirName[dir], "frame", idx) // cause before effect in the log
 				dst.Write(append(pendingRaw, raw[:cut]...))
-				pc.p.rec.Emit("WireFault", "conn", pc.ID, "fault", rule.Pos+"/"+rule.Style, "dir", dirName[dir], "frame", idx)
 				if rule.Style == "hole" { // the link falls silent in the middle of the frame instead of ending
 					pc.mu.Lock()
 					pc.black = true
